@@ -48,7 +48,7 @@ pub open spec fn any_some(s: Seq<Option<VxSlot>>) -> bool { exists|i: int| 0 <= 
 #[verifier::external_body]
 pub fn vx_any_some(v: &Vec<Option<VxSlot>>) -> (r: bool) ensures r == any_some(v@) { unimplemented!() }
 #[verifier::external_body]
-pub fn unknown_destinations_error(unknowns: Vec<usize>) -> ValidationError { unimplemented!() }
+pub fn unknown_destinations_error(unknowns: Vec<usize>) -> (r: ValidationError) ensures ve_unknown_dest(r) { unimplemented!() }
 
 impl Channel {
 //@fn vls-core/src/channel.rs :: impl Channel :: counterparty_pubkeys mode=trusted
@@ -85,6 +85,12 @@ pub open spec fn beneficial_value(w: VxWallet, out: TxOut, opath: DerivationPath
             _ => None,
         }
     } else { None }
+}
+// an output is either a known destination or a PLAIN unknown one (no wallet path, not allowlisted, no channel): an output
+// that claims to fund a channel and fails the funding rules is never reported as merely "unknown"
+pub open spec fn known_or_plain_unknown(w: VxWallet, out: TxOut, opath: DerivationPath, slot: Option<VxSlot>) -> bool {
+    beneficial_value(w, out, opath, slot).is_some()
+    || (path_len(opath) == 0 && !wallet_allowlisted(w, out.script_pubkey, master_path()) && slot.is_none())
 }
 pub open spec fn outputs_ok_upto(w: VxWallet, tx: Transaction, opaths: Seq<DerivationPath>, channels: Seq<Option<VxSlot>>, n: int) -> bool {
     forall|i: int| 0 <= i < n ==> beneficial_value(w, #[trigger] tx.output@[i], opaths[i], channels[i]).is_some()
@@ -126,6 +132,7 @@ impl SimpleValidator {
         // the value not returned to the node is within the maximum fee rate
         r.is_ok() && vx_strict(T_policy_onchain_fee_range) && !dev_disabled(self.policy) ==>
             feerate_sat((sum_our_inputs - sum_our_outputs) as nat, weight as nat) <= self.policy.max_feerate_per_kw,   //[C08.fee.range]
+        r.is_err() ==> !ve_unknown_dest(r->Err_0),
 //@end
 
 //@fn vls-core/src/policy/simple_validator.rs :: impl Validator for SimpleValidator :: validate_onchain_tx props=C08
@@ -135,6 +142,8 @@ impl SimpleValidator {
                 it.snapshot.end == tx.output@.len(),
                 opaths@.len() == tx.output@.len(), channels@.len() == tx.output@.len(),
                 c08_strict() && unknowns@.len() == 0 ==> outputs_ok_upto(*wallet, *tx, opaths@, channels@, outndx as int),
+                c08_strict() ==> forall|j: int| 0 <= j < outndx ==> known_or_plain_unknown(*wallet, #[trigger] tx.output@[j], opaths@[j], channels@[j]),
+                c08_strict() ==> (any_some(channels@) ==> all_true_flags(segwit_flags@)) && tx.version == Version::TWO && tx_base_size(*tx) <= MAX_ONCHAIN_TX_SIZE,
                 c08_strict() && unknowns@.len() == 0 ==> beneficial_sum as nat == beneficial_sum_upto(*wallet, *tx, opaths@, channels@, outndx as int),
 //@loop 2 iter=it2
             invariant
